@@ -44,6 +44,7 @@ def run_families(ck, families, nontrivial=None, maxsteps=60000, guard_is_violati
             continue
         vs = sess.judge(sessions, cmp=cmp, mode=mode, maxsteps=maxsteps, ck=ck, part=name, budget=budget)
         st = {"sessions": len(vs), "accepted": 0, "unspecified": 0, "diverged": 0, "guard_skipped": 0, "known": 0}
+        d11_candidates = []
         for v in vs:
             ck.cov["evaluations"] += 1
             crashed = [o for o in (v.real or []) if o.get("kind") in ("panic", "hang", "crash") or str(o.get("err", "")).startswith("other:")]
@@ -67,7 +68,9 @@ def run_families(ck, families, nontrivial=None, maxsteps=60000, guard_is_violati
                 st["diverged"] += 1
                 ck.cov["traces_validated_against_impl"] += 1
                 fid = findings.classify(ck.pid, v)
-                if fid:
+                if fid and fid[0] == "D11":
+                    d11_candidates.append((v, fid))      # confirmed below by a run whose stack never reallocates
+                elif fid:
                     st["known"] += 1
                     ck.known_finding(fid[0], fid[1])
                     if os.environ.get("VERIF_DUMPKNOWN"):
@@ -82,6 +85,28 @@ def run_families(ck, families, nontrivial=None, maxsteps=60000, guard_is_violati
                     ck.violation(describe(v), replay_case(v))
             else:
                 raise vlib.Infra("session %s of family %s: %s" % (v.session["id"], name, v.info))
+        if d11_candidates:
+            # D11 is "the closure's captured frame goes stale when the operand stack is reallocated": a candidate is the known
+            # finding only if the same session agrees with the specification when the stack is grown once, beforehand
+            import copy
+            again = []
+            for v, fid in d11_candidates:
+                s2 = copy.deepcopy(v.session)
+                s2["pregrow"] = 300000
+                s2["items"] = s2["items"][:v.info.get("item", len(s2["items"]))]     # up to and including the diverging item
+                again.append(s2)
+            vs2 = sess.judge(again, cmp=cmp, mode=mode, maxsteps=maxsteps, ck=ck, part=name + " (D11 confirmation runs)", budget=budget)
+            for (v, fid), v2 in zip(d11_candidates, vs2):
+                if v2.status == "accept":
+                    st["known"] += 1
+                    ck.known_finding(fid[0], fid[1])
+                    if os.environ.get("VERIF_DUMPKNOWN"):
+                        os.makedirs(os.path.join(vlib.VERIF, "evidence", "replay"), exist_ok=True)
+                        json.dump({"finding": fid[0], "description": describe(v), "case": replay_case(v)},
+                                  open(os.path.join(vlib.VERIF, "evidence", "replay", "known_%s_%s_%d.json" % (ck.pid, fid[0], v.session["id"])), "w"))
+                else:
+                    ck.violation(describe(v) + " [matches the syntactic shape of D11 but does not depend on stack reallocation]", replay_case(v))
+            d11_candidates = []
         ck.part(name, **st)
         if vs:
             v0 = vs[len(vs) // 2]
